@@ -96,6 +96,12 @@ SameTree(a, ca, b, cb, ci) ==   \* C04 C05 C11 C13 C14 C15
   ELSE IF ~ci /\ P(a, ca).st # P(b, cb).st THEN "tree-differs"
   ELSE ""
 
+SameTextCI(a, ca, b, cb) ==   \* C04: the regenerated text is the same up to letter case outside character literals
+  IF ~Has(parseOf, <<a, ca>>) \/ ~Has(parseOf, <<b, cb>>) THEN "missing-parse"
+  ELSE IF P(a, ca).res # "ok" \/ P(b, cb).res # "ok" THEN "not-accepted"
+  ELSE IF ~Has(printOf, P(a, ca).tree) \/ ~Has(printOf, P(b, cb).tree) THEN "missing-print"
+  ELSE IF printOf[P(a, ca).tree].tci # printOf[P(b, cb).tree].tci THEN "text-differs" ELSE ""
+
 Reject(s, c) ==          \* C08, C17 (2008-only construct under the 2003 parser)
   IF ~Has(parseOf, <<s, c>>) THEN "missing-parse"
   ELSE IF P(s, c).res = "ok" THEN "accepted" ELSE ""
@@ -153,6 +159,7 @@ Law(ev) ==
   CASE ev.law = "fixpoint" -> Fixpoint(ev.src, ev.cfg)
     [] ev.law = "tokens" -> TokensPreserved(ev.src, ev.cfg)
     [] ev.law = "sametree" -> SameTree(ev.src, ev.cfg, ev.src2, ev.cfg2, ev.ci)
+    [] ev.law = "sametextci" -> SameTextCI(ev.src, ev.cfg, ev.src2, ev.cfg2)
     [] ev.law = "reject" -> Reject(ev.src, ev.cfg)
     [] ev.law = "accept" -> Accept(ev.src, ev.cfg)
     [] ev.law = "fseat" -> FseAt(ev.src, ev.cfg, ev.line, ev.q)
